@@ -14,9 +14,9 @@ def profile(name, **kw):
 profile("clean_hpc", mode="hpc", fault_free=True, kind="world")
 profile("clean_local", mode="local", fault_free=True, kind="world", user_cmds=False, multi_group=True)
 profile("clean_hpc_small", mode="hpc", fault_free=True, kind="world", max_jobs=4)
-profile("clean_hpc_quoting", mode="hpc", fault_free=True, kind="world", quoting=True, max_jobs=6)
+profile("clean_hpc_quoting", mode="hpc", fault_free=True, kind="world", quoting=True, max_jobs=6, p_monitor=0.4)
 profile("clean_local_quoting", mode="local", fault_free=True, kind="world", quoting=True, max_jobs=6,
-        user_cmds=False)
+        user_cmds=False, p_monitor=0.4)
 profile("clean_hpc_probe", mode="hpc", fault_free=True, kind="world", quoting=True, max_jobs=5, real_probe=True)
 profile("clean_local_probe", mode="local", fault_free=True, kind="world", quoting=True, max_jobs=5, real_probe=True,
         user_cmds=False)
